@@ -1688,7 +1688,13 @@ class SiftConfig(collections.abc.MutableMapping):
     def from_yaml_stream(cls, stream):
         """Create and return a new SiftConfig object with options loaded from a yaml stream."""
         ret = cls()
-        ret.store = yaml.load(stream, Loader=yaml.FullLoader)
+        cfg = yaml.load(stream, Loader=yaml.FullLoader)
+        if isinstance(cfg, dict):
+            ret.store = cfg
+            ret.sift_type = 'Unknown'
+        else:
+            ret.sift_type = cfg[0]['sift_type']
+            ret.store = cfg[1]
         return ret
 
     def get_func(self):
@@ -1814,11 +1820,14 @@ def _get_function_opts(func, ignore=None):
 
 def _array_or_tuple_to_list(conf):
     """Convert an input array or tuple to list (for yaml_safe dict creation."""
+    out = {}
     for key, val in conf.items():
         if isinstance(val, np.ndarray):
-            conf[key] = val.tolist()
+            out[key] = val.tolist()
         elif isinstance(val, dict):
-            conf[key] = _array_or_tuple_to_list(conf[key])
+            out[key] = _array_or_tuple_to_list(val)
         elif isinstance(val, tuple):
-            conf[key] = list(val)
-    return conf
+            out[key] = list(val)
+        else:
+            out[key] = val
+    return out
